@@ -53,7 +53,7 @@ class PropertyModTrackerPlugin(Plugin):
             if has_changes(parent_obj, prop.key) or is_deleted:
                 setattr(
                     version_obj,
-                    prop.key + self.column_suffix,
+                    prop.columns[0].key + self.column_suffix,
                     True
                 )
 
